@@ -1,5 +1,6 @@
 import Tyme.Driver.Util
 import Tyme.Driver.P01
+import Tyme.Driver.P05
 import Tyme.Driver.P20
 import Tyme.Driver.P10
 import Tyme.Driver.P14
@@ -29,6 +30,7 @@ def execOpAll (op : String) (a : List Int) : String :=
     <|> (P14.execOp op a)
     <|> (P10.execOp op a)
     <|> (P20.execOp op a)
+    <|> (P05.execOp op a)
     -- DISPATCH-EXEC   <|> (Pxx.execOp op a)
   match r with
   | none => "bad-op"
@@ -49,6 +51,7 @@ def specOpAll (op : String) (a : List Int) : String :=
     <|> (P14.specOp op a)
     <|> (P10.specOp op a)
     <|> (P20.specOp op a)
+    <|> (P05.specOp op a)
     -- DISPATCH-SPEC   <|> (Pxx.specOp op a)
   match r with
   | none => "n/a"
@@ -68,6 +71,7 @@ def runEnumAll (name : String) (args : List String) (out : IO.FS.Stream) : Optio
   <|> (P14.runEnum name args out)
   <|> (P10.runEnum name args out)
   <|> (P20.runEnum name args out)
+  <|> (P05.runEnum name args out)
   -- DISPATCH-ENUM   <|> (Pxx.runEnum name args out)
 
 def lineWith (f : String → List Int → String) (line : String) : String :=
